@@ -1,7 +1,7 @@
 (* Model.GeomRun: case type and executable checkers for Run/cases_C18.v (no proofs).
    model_ok  : the implementation's output equals the model's on the same input;
    spec_class: the property itself, decided on the implementation's output alone. *)
-From DV Require Import Base.Prelude Base.Int Base.WrapZ Gen.Consts Gen.Arith Model.Geometry Model.RLE Model.ROI.
+From DV Require Import Base.Prelude Base.Int Base.WrapZ Gen.Consts Model.Geometry Model.RLE Model.ROI.
 Local Open Scope Z_scope.
 
 Definition zb (b : bytes) : list Z := map Z.of_N b.
@@ -150,7 +150,8 @@ Definition model_ok (c : c18case) : bool :=
     if starts_distinct l && starts_distinct s then res_eqb rles_eqb (split l s) out else true
   | KPart l size out => res_eqb bmap_eqb (partition l size) out
   | KFit l b out => rles_eqb (fit_to_bounds l b) out || rles_eqb (fit_to_bounds_orig l b) out
-  | KAdd l l2 out added => rles_eqb (fst (add l l2)) out && (snd (add l l2) =? added)
+  | KAdd l l2 out added =>
+    rles_eqb (fst (add l l2)) out && ((snd (add l l2) =? added) || (snd (add_orig l l2) =? added))
   | KMarshal l enc dec one =>
     bytes_eqb (marshal l) enc && res_eqb rles_eqb (unmarshal enc) dec && one
   | KUnmarshal enc dec => res_eqb rles_eqb (unmarshal enc) dec
@@ -161,6 +162,14 @@ Definition model_ok (c : c18case) : bool :=
   | KVbi vmin vmax bs spans ans => res_eqb Bool.eqb (voxel_bounds_inside vmin vmax bs spans) ans
   end.
 
+(* the number of voxels Add really adds: counted voxel by voxel *)
+Definition count_new (l : list rle) (r : rle) : Z :=
+  Z.of_nat (length (filter (fun i => negb (inrs (rx r + Z.of_nat i, ry r, rz r) l)) (seq 0 (Z.to_nat (rlen r))))).
+Fixpoint add_expected (l l2 : list rle) : Z :=
+  match l2 with
+  | [] => 0
+  | r :: t => count_new l r + add_expected (l ++ [r]) t
+  end.
 Definition cls (b : bool) (k : nat) : nat := if b then 0%nat else k.
 Definition pre_runs (l : list rle) : bool := forallb run_okb l && disjointb l.
 
@@ -238,7 +247,7 @@ Definition spec_class (c : c18case) : nat :=
   | KAdd l l2 out added =>
     if forallb run_okb l && forallb run_okb l2 then
       if agree_on (probes (l ++ l2 ++ out)) (fun p => inrs p out) (fun p => inrs p l || inrs p l2)
-      then 0%nat else 10%nat
+      then (if added =? add_expected l l2 then 0%nat else 18%nat) else 10%nat
     else 0%nat
   | KMarshal l enc dec one =>
     if forallb (fun r => is32b (rx r) && is32b (ry r) && is32b (rz r) && is32b (rlen r)) l
